@@ -81,8 +81,18 @@ def check_point(pt):
         evals += 1
         cur = roundtrip.tag(l)
         if prev_tag is not None and cur != prev_tag:
+            diffs = item_diffs(prev_tag, cur)
+            if diffs:
+                # one violation per drifting item, each with its own (narrow) discriminator
+                vs = []
+                for sec, mn, before, after in diffs:
+                    v = V("not-a-fixed-point", {"cycle %d equals cycle %d" % (cycle, cycle - 1): [sec, mn, _short(before)]},
+                          _short(after), written)
+                    v["sig"] = classify_item(cfg, sec, mn, before, after)
+                    vs.append(v)
+                return vs, True, "drift", {}, evals
             return [V("not-a-fixed-point", "cycle %d equals cycle %d" % (cycle, cycle - 1),
-                      canon.diff_tags(prev_tag, cur), written, item_diffs(prev_tag, cur))], True, "drift", {}, evals
+                      canon.diff_tags(prev_tag, cur), written)], True, "drift", {}, evals
         prev_tag = cur
         if cycle == CYCLES:
             break
@@ -97,7 +107,8 @@ def check_point(pt):
 
 
 def item_diffs(tag_a, tag_b):
-    """(section, original mnemonic) of every header item whose tag differs; None if the structure differs."""
+    """[(section, original mnemonic, item_before, item_after)] for every header item whose tag differs
+    (items are (original, unit, value_tag, descr)); None if the structure differs."""
     out = []
     sa, sb = dict(tag_a["sections"]), dict(tag_b["sections"])
     if list(sa) != list(sb):
@@ -108,7 +119,7 @@ def item_diffs(tag_a, tag_b):
             return None
         if a[0] == "text":
             if a != b:
-                out.append((name, "<text>"))
+                out.append((name, "<text>", a, b))
             continue
         if len(a[1]) != len(b[1]):
             return None
@@ -116,10 +127,31 @@ def item_diffs(tag_a, tag_b):
             if ia != ib:
                 if ia[0] != ib[0]:
                     return None
-                out.append((name, ia[0]))
+                out.append((name, ia[0], ia, ib))
     if tag_a.get("curves") != tag_b.get("curves"):
-        out.append(("<data>", ""))
+        out.append(("<data>", "", None, None))
     return out
+
+
+def classify_item(cfg, sec, mn, before, after):
+    """Reason for one drifting item, only for the recorded known findings; anything else is 'other'."""
+    if before is None or sec == "<data>" or mn == "<text>":
+        return "other:" + sec
+    _, ub, vb, db = before
+    _, ua, va, da = after
+    coarse = cfg.get("fmt") in ("%.2f", "%.0f", "%g", "%.3e") or cfg.get("column_fmt") == "first"
+    if sec == "Well" and mn.upper() in ("STRT", "STOP", "STEP") and coarse and (ub, db) == (ua, da):
+        return "strt-stop-step-precision"
+    if len(ub) >= 2 and ((ub[0] == "[" and ub[-1] == "]") or (ub[0] == "(" and ub[-1] == ")")) and ua == ub[1:-1] and (vb, db) == (va, da):
+        return "nested-brackets-unit"
+    head = ub.split(" ")[0]
+    if head.isdigit() and ub.isascii() and db == da:
+        return "numeric-unit-single-blank"
+    return "other:" + sec
+
+
+def _short(item):
+    return None if item is None else [str(x)[:60] for x in item]
 
 
 def classify(name, cfg, clause, observed, l1=None, diffs=None):
@@ -142,10 +174,6 @@ def classify(name, cfg, clause, observed, l1=None, diffs=None):
         return "writer-ignores-dlm=" + dlm
     if clause == "own-output-unreadable" and has_text_blank:
         return "text-sample-with-blank-unquoted"
-    coarse = cfg.get("fmt") in ("%.2f", "%.0f", "%g", "%.3e") or cfg.get("column_fmt") == "first"
-    if clause == "not-a-fixed-point" and diffs is not None and diffs and coarse and all(
-            sec == "Well" and mn.upper() in ("STRT", "STOP", "STEP") for sec, mn in diffs):
-        return "strt-stop-step-precision"
     return "other:%s:%s" % (name.split(":")[0], cfg.get("fmt"))
 
 
